@@ -63,11 +63,11 @@ func main() {
 	case "C02":
 		c.encodeSide(c.accepted("maps", "lists", "scalars", "byvalue", "recursive", "spellings", "random", "leaf", "ids"), n, false)
 	case "C03":
-		c.decodeSide(c.accepted("evolution", "evomix", "recursive", "maps", "lists", "scalars", "byvalue", "ids", "random", "defaults"), n, false)
+		c.decodeSide(c.accepted("evolution", "evomix", "empty", "recursive", "maps", "lists", "scalars", "byvalue", "ids", "random", "defaults"), n, false)
 	case "C04":
 		c.encodeSide(all, n, true)
 	case "C05":
-		us := c.accepted("evolution", "evomix", "recursive", "maps", "lists", "scalars", "byvalue", "ids", "random", "nocopy")
+		us := c.accepted("evolution", "evomix", "empty", "recursive", "maps", "lists", "scalars", "byvalue", "ids", "random", "nocopy")
 		c.malformed(us, (n+2)/3)
 		c.allocBound(c.accepted("lists", "maps")[:4])
 	case "C06":
@@ -98,7 +98,7 @@ func main() {
 		c.decodeSide(c.accepted("defaults", "byvalue", "maps", "lists"), 2*n, false)
 		c.roundTrip(c.accepted("defaults", "byvalue"), 2*n)
 	case "C11":
-		c.decodeSide(c.accepted("evolution", "evomix", "recursive", "leaf", "byvalue", "random"), 3*n, true)
+		c.decodeSide(c.accepted("evolution", "evomix", "empty", "recursive", "leaf", "byvalue", "random"), 3*n, true)
 	case "C12":
 		c.resolveAll(false)
 		c.encodeSide(c.accepted("spellings"), 2*n, false)
